@@ -114,6 +114,34 @@ def replay_config(ctx, rec, cfg, aunit, funit, fp_hz, nps, order, expected=None,
         if expected is not None:
             rec.count('direct')
             rec.count('direct_equal', int(sorted(map(tuple, pairs)) == sorted(map(tuple, expected['direct']))))
+    # ---- the same query with the pulse frequency in another unit than the chopper frequency, and with a
+    # chopper frequency 1e-9 (relative) below / above the nominal one: both are inside the documented
+    # in-phase tolerance, the quotient |f| / f_pulse then lands just below / above the integer in
+    # floating point, and the result must still cover the whole pulse period (times within 1e-8).
+    variants = []
+    if mixed_units and funit != 'Hz':
+        variants.append(('pulse frequency in Hz', disk, sc.scalar(float(fp_hz), unit='Hz'), f_hz))
+    if mixed_units:
+        for sgn in (-1, 1):
+            d2, e2 = _call(ctx, 'DiskChopper', None,
+                           lambda sgn=sgn: make_disk(K, cfg['slits'], cfg['bp'], cfg['ph'], cfg['cw'], f_hz, aunit, funit,
+                                                     order, scale=1.0 + sgn * 1e-9))
+            if e2 is None:
+                # the tick grid of *this* disk: one tick = 1 / (K |f|) of its own frequency
+                variants.append((f'frequency {"below" if sgn < 0 else "above"} nominal by 1e-9', d2, pf,
+                                 f_hz * Fraction(1.0 + sgn * 1e-9)))
+    for label, dk, pfv, f_ticks in variants:
+        res, exc = _call(ctx, 'direct', None, lambda dk=dk, pfv=pfv: (dk.time_offset_open(pulse_frequency=pfv),
+                                                                    dk.time_offset_close(pulse_frequency=pfv)))
+        if exc is not None:
+            ctx.violation(f'time_offset_open/close raised {type(exc).__name__} for a valid in-phase configuration '
+                          f'({label.split(" by")[0]}), {rc}', {**desc, 'variant': label, 'exc': repr(exc)})
+            continue
+        o, ok1 = to_ticks(res[0], K, f_ticks)
+        c, ok2 = to_ticks(res[1], K, f_ticks)
+        n = min(len(o), len(c))
+        rec.add(_pairs_event(cfg, 'direct', 1, [[o[i], c[i]] for i in range(n)], [], ok1 and ok2 and len(o) == len(c)),
+                {'api': f'time_offset_open/close, {label.split(" by")[0]}', 'rc': rc, 'desc': {**desc, 'variant': label}})
     # ---- expansion over pulses
     for np_ in nps:
         ch, exc = _call(ctx, 'expand', None, lambda np_=np_: Chopper.from_disk_chopper(disk, pf, np_))
@@ -253,7 +281,7 @@ def run(ctx):
                           simulate='num=600', depth=12, extra=['-seed', str(ctx.seed + 10)])
             require_ok(ctx, sim, 'DiskChopper random walks (K = 360)')
             _count_simulated(ctx, sim)
-        for bug in ('nowrap', 'perpulse', 'swap', 'phasesign', 'gap'):
+        for bug in ('nowrap', 'perpulse', 'swap', 'phasesign', 'gap', 'truncate'):
             ctx.tlc('chopper/MC_DiskChopper.tla', f'Neg_DiskChopper_{bug}.cfg', workers=4, expect_error=True,
                     timeout=600)
 
